@@ -88,11 +88,19 @@ def signature(case, verdict):
         if band == "e":
             sig["qle5"] = q <= 5
         return sig
+    if mode == "ssb":
+        # GEOSSingleSidedBuffer is deprecated since 3.3 and purely heuristic (intersection of a raw curve with the flat-cap
+        # buffer boundary, end trimming by fixed percentages): one class
+        if clause in ("crash", "timeout", "hang"):
+            return {"mode": mode, "clause": clause}          # never part of the known heuristic family
+        return {"mode": mode}
     try:
         parts = int(f.get("parts", "1"))
     except ValueError:
         parts = 1
-    if selfx or f.get("closed") == "1" or (mode == "ss" and parts > 1):
+    tin = parts_of(case)[1].split()
+    container = len(tin) > 1 and tin[1] in ("ML", "MP", "MY", "GC")      # BufferBuilder::buffer takes the per-part path for these
+    if selfx or f.get("closed") == "1" or (mode == "ss" and (parts > 1 or container)):
         # single-sided buffers / offset curves of linework that is closed, not simple or multi-part: one class per call
         return {"mode": mode, "simpleOpenLines": False}
     if tiny:
@@ -295,7 +303,7 @@ def run(ctx):
         fillet_note = None
 
     # ---- (3) buffers against the distance specification
-    n = 640 if quick else 48000
+    n = 1600 if quick else 48000
     r = verif.run_stream(exe, "buffer", ctx.seed, n, ctx.work, shards=8, driver_exe=DRV, timeout=6000)
     corr["buffer"] = {"cases": r["cases"], "disagreements": len(r["disagreements"]) + r.get("more_disagreements", 0), "distribution": r["stats"]}
     ctx.cov["samples"] += [{"case": s["case"][:300], "impl": s["impl"], "model": s["model"]} for s in r.get("samples", [])[:2]]
@@ -335,7 +343,8 @@ def run(ctx):
             continue
         seen.append(sig0)
         best_case, best_v = case, got
-        if shrunk < 6 and fields(got)["clause"] not in ("null",):
+        is_known = any(k.get("signature") == sig0 for k in ctx.known)
+        if not is_known and shrunk < 6 and fields(got)["clause"] not in ("null",):
             tin, v, c2 = shrink(exe, case, got)
             best_case, best_v = c2, v
             shrunk += 1
